@@ -99,6 +99,58 @@ def _ret_attr(fn):
     return None
 
 
+def _budgets(ctx, repo) -> None:
+    """get_stopping_conditions interpreted for configurations in which several budgets carry the same number, and
+    add_observer for two observers of one class: one condition per configured budget, every observer attached."""
+    import types as _types
+
+    from sa.engine import peval
+
+    FACM = "pynguin.ga.generationalgorithmfactory"
+    fn = repo.func(FACM, "GenerationAlgorithmFactory.get_stopping_conditions")
+    ctx.analysed(fn)
+    BUDGETS = {"maximum_iterations": "MaxIterationsStoppingCondition", "maximum_statement_executions": "MaxStatementExecutionsStoppingCondition",
+               "maximum_test_executions": "MaxTestExecutionsStoppingCondition", "maximum_search_time": "MaxSearchTimeStoppingCondition"}
+    made = []
+
+    def ctor(cls_name):
+        def make(*a, **k):
+            made.append((cls_name, a))
+            return peval.Obj(cls_name, fields={"limit": a[0] if a else None})
+        return make
+
+    names = {"MaxIterationsStoppingCondition", "MaxStatementExecutionsStoppingCondition", "MaxTestExecutionsStoppingCondition", "MaxSearchTimeStoppingCondition", "MaxCoverageStoppingCondition",
+             "CoveragePlateauStoppingCondition", "MinimumCoveragePlateauStoppingCondition", "MaxMemoryStoppingCondition"}
+    for label, values in (("all four budgets = 2", {k: 2 for k in BUDGETS}), ("iterations = time = 5", {"maximum_iterations": 5, "maximum_search_time": 5}), ("statements = tests = 40", {"maximum_statement_executions": 40, "maximum_test_executions": 40}),
+                          ("iterations only", {"maximum_iterations": 7})):
+        made.clear()
+        stopping = _types.SimpleNamespace(**{**{k: -1 for k in BUDGETS}, **values, "maximum_coverage": 100, "maximum_coverage_plateau": -1, "minimum_coverage": 100, "minimum_plateau_iterations": -1, "maximum_memory": -1})
+        it = peval.Interp(resolver=peval.repo_resolver(repo), native_types=(_types.SimpleNamespace,), consts={"config.configuration.stopping": stopping, "config.configuration": _types.SimpleNamespace(stopping=stopping), **{n: ctor(n) for n in names}},
+                          externs={n: ctor(n) for n in names} | {f"sc.{n}": ctor(n) for n in names})
+        try:
+            res = it.run_function(fn, [peval.Obj("factory", fields={"_logger": None})], {}, repo.module(FACM))
+        except (peval.Undecided, peval.Raises) as exc:
+            ctx.undecide("C17.budgets", fn, f"{label}: {exc}")
+            continue
+        got = sorted((o.label, o.fields["limit"]) for o in res if o.label in BUDGETS.values())
+        want = sorted((BUDGETS[k], v) for k, v in values.items())
+        ctx.check("C17.budgets", fn, got == want, f"[{label}] the factory creates {got}, the configuration asks for {want}: a budget whose number equals that of another budget gets no stopping condition, so the search runs past it", what=f"[{label}] one condition per budget", stmt=f"[{label}]")
+    # every observer handed to the executor is attached, also a second one of the same class
+    EXEM = "pynguin.testcase.execution"
+    add = repo.func(EXEM, "TestCaseExecutor.add_observer")
+    ctx.analysed(add)
+    try:
+        it = peval.Interp(resolver=peval.repo_resolver(repo))
+        ex = peval.Obj("executor", fields={"_observers": []})
+        first, second = peval.Obj("MaxTestExecutionsStoppingCondition"), peval.Obj("MaxTestExecutionsStoppingCondition")
+        it.run_function(add, [ex, first], {}, repo.module(EXEM))
+        it.run_function(add, [ex, second], {}, repo.module(EXEM))
+        obs = ex.fields["_observers"]
+        ctx.check("C17.budgets", add, any(o is first for o in obs) and any(o is second for o in obs), f"add_observer attaches {len(obs)} of two observers of the same class: the execution-counting condition of a second search on the same executor sees no executions, its budget is never reached", what="add_observer attaches every observer", stmt="[add_observer]")
+    except (peval.Undecided, peval.Raises) as exc:
+        ctx.undecide("C17.budgets", add, f"add_observer: {exc}")
+
+
 def check(ctx) -> None:
     repo = ctx.repo
     ctx.rule("C17.loop", "MUST-PASS: each search loop tests self.resources_left() as a top-level conjunct, reaches self.after_search_iteration() exactly once per iteration, and is dominated by before_search_start()", floor=8 * 4)
@@ -122,6 +174,8 @@ def check(ctx) -> None:
                 harmless = is_log or not uses_self  # only a call on / with the algorithm can execute tests or run its hooks
                 first_ = first_ and harmless
         ctx.check("C17.reset-first", calls_[0], first_ and len(calls_) == 1, f"{qn_}: before_search_start() is preceded by a call that can execute tests or run hooks, is nested in a branch, or is called more than once: test executions made before it (the initial population) are forgotten when the counters are reset, so the search starts its iterations with the budget already spent", what=f"{qn_}: budgets reset before anything runs", stmt=f"[{qn_}]")
+    ctx.rule("C17.budgets", "ABSINT: get_stopping_conditions creates one condition per configured budget also when budgets carry equal numbers; add_observer attaches a second observer of the same class", floor=5)
+    _budgets(ctx, repo)
     ctx.rule("C17.resources", "resources_left() is `all(not sc.is_fulfilled() for sc in self._stopping_conditions)` (universal, unfiltered)", floor=1)
     ctx.rule("C17.counter", "counting conditions: is_fulfilled is counter >= limit; the counter is incremented only and unconditionally in its designated hook and reset in before_search_start", floor=3 * 4)
     ctx.rule("C17.wiring", "every stopping condition handed to the strategy is registered as search observer, and as executor observer when it observes execution; counting conditions declare observes_execution=True", floor=5)
